@@ -104,7 +104,7 @@ class Gen:
                 return self.gen_enum()
             if q < 0.97:
                 return self.gen_sub()
-            return {'pattern': r.choice([None, 'str', 'bytes'])}
+            return {'pattern': r.choice([None, 'str', 'bytes'] if self.noinit else [None, 'str'])}
         if p < 0.45:
             origin = r.choice(SEQ_ORIGINS)
             needs_hash = origin in ('set', 'MutableSet', 'Set', 'frozenset')
@@ -173,10 +173,14 @@ class Gen:
         if r.random() < 0.5:
             # overlap-biased: members that accept common values
             pool = [['int', 'float', 'complex'], ['str', 'Decimal', 'Fraction'], ['str', 'date', 'datetime'],
-                    ['bool', 'int'], ['NoneType', 'int', 'str'], ['bytes', 'bytearray', 'str']]
+                    ['bool', 'int'], ['NoneType', 'int', 'str'], ['bytes', 'bytearray', 'str'],
+                    [{'lit': ['auto']}, 'float', {'lit': [{'i': '0'}]}], [{'lit': [{'i': '1'}]}, 'complex', {'lit': [{'i': '2'}, 'a']}, 'str'],
+                    [{'lit': [True]}, 'int', {'lit': [False, None]}], ['float', {'lit': [{'i': '3'}]}, 'int', {'lit': ['x', {'i': '5'}]}]]
             base = list(r.choice(pool))
-            r.shuffle(base)
-            members = base[:n]
+            if not any(isinstance(m, dict) for m in base):
+                r.shuffle(base)
+                base = base[:n]
+            members = base
             if r.random() < 0.5:
                 members.append({'seq': ['list', r.choice(members)]})
         else:
@@ -1120,4 +1124,59 @@ def scenarios_shapes(seed, n, op='render'):
         except Exception:
             continue
         out.append({'id': f's{seed}:{i}', 'decl': ge.decl, 'op': op, 'ty': ty, 'val': wire, 'spell': r.randrange(2), 'stream': 'shapes'})
+    return out
+
+
+def scenarios_tuplelayout(seed, n, op='from_data'):
+    """dataclasses with the positional layout enabled: init=False / keyword-only / excluded fields interleaved with
+    positional ones; sequence data of every admissible length, one element possibly of the wrong kind"""
+    g = random.Random(seed)
+    out = []
+    for i in range(n):
+        ge = Gen(g.randrange(1 << 62), max_depth=1, classes=True)
+        r = ge.r
+        name = ge.fresh('T')
+        fields = []
+        seen_default = False
+        tys = ['int', 'str', 'float', 'bool', {'seq': ['list', 'int']}, 'NoneType', 'bytes']
+        for k in range(r.randint(1, 5)):
+            ty = r.choice(tys)
+            f = {'name': 'f%d' % k, 'ty': ty}
+            q = r.random()
+            if q < 0.25:
+                f['spec'] = {'init': False}
+                f['default'] = {'value': ENC.enc(ge.valid(ty, 2))}
+            elif q < 0.35:
+                f['spec'] = {'kw_only': True}
+                f['default'] = {'value': ENC.enc(ge.valid(ty, 2))}
+            elif q < 0.42:
+                f['spec'] = {'exclude': True}
+                f['default'] = {'value': ENC.enc(ge.valid(ty, 2))}
+                seen_default = True
+            elif seen_default or r.random() < 0.35:
+                f['default'] = {'value': ENC.enc(ge.valid(ty, 2))}
+                seen_default = True
+            fields.append(f)
+        d = {'name': name, 'fields': fields, 'opts': {'in_format': r.choice([['tuple', 'struct'], ['tuple']])}, 'hook': None}
+        if r.random() < 0.3:
+            d['opts']['out_format'] = 'tuple'
+        ge.decl['classes'].append(d)
+        ge.class_info[name] = d
+        pos = [f for f in fields if not (f.get('spec') or {}).get('init') is False and not (f.get('spec') or {}).get('kw_only')]
+        nreq = sum(1 for f in pos if 'default' not in f)
+        ln = r.choice([nreq, len(pos), r.randint(0, len(pos) + 1)])
+        items = [ge.valid(f['ty'], 2) for f in pos[:ln]] + [ge.rscalar() for _ in range(max(0, ln - len(pos)))]
+        if items and r.random() < 0.6:
+            j = r.randrange(len(items))
+            items[j] = r.choice([None, 'bad', 3.5, [1], 7, b'x', True])
+        ty = {'cls': [name, []]}
+        val = items if r.random() < 0.5 else tuple(items)
+        if r.random() < 0.3:
+            ty, val = {'seq': ['list', ty]}, [val]
+        try:
+            wire = ENC.enc(val)
+            json.dumps(wire)
+        except Exception:
+            continue
+        out.append({'id': f'tl{seed}:{i}', 'decl': ge.decl, 'op': op, 'ty': ty, 'val': wire, 'spell': r.randrange(2), 'stream': 'tuplelayout'})
     return out
